@@ -704,7 +704,7 @@ pub fn dispatch(cmd: &str, a: &std::collections::HashMap<String, String>) -> Opt
         "auth1" => Some(batch_l1(&out, &tier, seed)),
         "auth2" => Some(batch_l2(&out, seed, scripts_auth2(&tier, seed), "auth2", 1)),
         "auth-reflect" => Some(batch_l2(&out, seed, scripts_reflect(), "auth-reflect", 2)),
-        "wire-sessions" => Some(batch_l2(&out, seed, scripts_wire(&tier, seed), "wire-sessions", if tier == "thorough" { 8 } else { 2 })),
+        "wire-sessions" => Some(batch_l2(&out, seed, scripts_wire(&tier, seed), "wire-sessions", if tier == "thorough" { 24 } else { 2 })),
         _ => None,
     }
 }
